@@ -349,6 +349,11 @@ def generate(rng, index, tier):
         at, qd, fd, cd = timing[i]
         downloads.append({'id': i, 'peer': peer, 'remote': remote, 'size': rng.choice(SIZES), 'at': at,
                           'queue_delay': qd, 'f_delay': fd, 'chunk_delay': cd})
+    if focus == 'schedule' and n >= 2 and rng.random() < 0.25:
+        # the first file connection of one download is reset early; it retries while the others start / run
+        victim = rng.randrange(n)
+        downloads[victim]['first_reset'] = rng.choice([0, 0, 1, 500])
+        downloads[victim]['queue_delay'] = rng.choice([0.3, 1.0, 2.0])
     execcfg, slow = draw_exec(rng)
     extra = []
     for _ in range(rng.choice([0, 2, 4, 8])):
@@ -431,6 +436,14 @@ def corpus(tier):
                                  downloads=[dl(0, song.replace('{peer}', 'bob'), cd=0.05, size=20000),
                                             dl(1, song.replace('{peer}', 'carol'), at=0.02, cd=0.05, size=20000),
                                             dl(2, song.replace('{peer}', 'dave'), at=0.04)]))
+    # 1b. the first file connection of a download is reset (before the first byte / after some bytes); a second download of
+    #     an equally named file starts before the first one's retry
+    for chain in [None] + SOUND[:2]:
+        for cut in (0, 1, 300):
+            for off in (1.6, 2.0):
+                out.append(base_plan(chain=chain and list(chain), downloads=[
+                    dict(dl(0, song.replace('{peer}', 'bob'), qd=1.0), first_reset=cut),
+                    dl(1, song.replace('{peer}', 'carol'), at=off, cd=0.05, size=300000)]))
     # 2. enumerated axis: chain x input class x {empty directory, natural name taken}; two downloads, the second one
     #    after the first has finished (sequential) so that every verdict is about the input, not the schedule
     for chain in [None] + CHAINS:
@@ -615,8 +628,14 @@ def _run(world: World, plan):
         xp = XferPeer(world, d['peer'])
         xp.attach(alice)
         xpeers[d['peer']] = xp
+        extra = {}
+        if d.get('first_reset') is not None:
+            # the first file connection is reset after this many bytes (0: before the first byte); later attempts are honest
+            extra['per_attempt'] = [{'send_bytes': int(d['first_reset']), 'after_send': 'abort'}]
+            world.net.fired['file_connection_reset_first_attempt'] += 1
         uploads[d['id']] = xp.share(d['remote_x'], d['source'], queue_delay=d.get('queue_delay', 0.05),
-                                    f_delay=d.get('f_delay', 0.0), chunk_delay=d.get('chunk_delay', 0.0), chunk=4096)
+                                    f_delay=d.get('f_delay', 0.0), chunk_delay=d.get('chunk_delay', 0.0), chunk=4096,
+                                    **extra)
 
     # ------------------------------------------------------------------ observation
     state = {'armed': False, 'prev': None, 'base': None, 'dirty': True, 'listed_at': 0, 'ntr': 0}
